@@ -25,7 +25,8 @@ func HarnessHIDIConfig() {
 	raw.HIDI.LogViewRate = int(verifrt.I64("log_view_rate"))
 	raw.HIDI.LogBufferSize = int(verifrt.I64("log_buffer_size"))
 	path := "hidi.toml"
-	data := verifrt.TOMLBytes(&raw)
+	// decoder outcome: decodes / syntax error / unknown field / value of the wrong kind / the library panics
+	data := verifrt.TOMLBytesFail(&raw, int(verifrt.U8("toml.fail")%5))
 	if !verifrt.Symbolic() {
 		dir, err := os.MkdirTemp("", "verif-hidi-")
 		if err != nil {
